@@ -101,6 +101,14 @@ fn btor2_all_kinds(k: usize) -> String {
         },
     }
 }
+/// input nodes, then a justice line that declares far more conditions than it holds (the parse ends there with an error)
+fn btor2_short_justice(k: usize) -> String {
+    match k {
+        0 => "1 sort bitvec 1\n".into(),
+        20000 => format!("{} justice 40000000 2\n", k + 1),
+        _ => format!("{} input 1\n", k + 1),
+    }
+}
 fn btor2_comments(k: usize) -> String {
     if k == 0 {
         "1 sort bitvec 1\n".into()
@@ -151,6 +159,7 @@ const STREAMS: &[(&str, &str, fn(usize) -> String)] = &[
     ("btor2", "input nodes with symbols and comments", btor2_nodes),
     ("btor2", "comment lines and blank lines", btor2_comments),
     ("btor2", "every kind of line in rotation", btor2_all_kinds),
+    ("btor2", "REJECTED: 20000 input nodes, then a justice line declaring 40000000 conditions and holding one", btor2_short_justice),
 ];
 fn one(si: usize, chunk: usize, max_read: usize, total: usize) -> (Result<usize, String>, usize, usize) {
     let (fmt, _, line) = STREAMS[si];
@@ -176,8 +185,8 @@ pub fn suite(_prop: &str, tier: &str, _seed: u64) -> Report {
                 rep.runs += 1;
                 rep.inputs += 1;
                 rep.nontrivial += 1;
-                if let Err(e) = &r {
-                    rep.fail("C10 the generated stream is accepted", desc.clone(), args.clone(), e.clone());
+                if r.is_ok() == STREAMS[si].1.starts_with("REJECTED") {
+                    rep.fail("C10 the generated stream is accepted (rejected where it is malformed)", desc.clone(), args.clone(), format!("{:?}", r));
                 }
                 if peak > bound {
                     rep.fail("C10 streaming memory is bounded by chunk size and largest item", desc, args, format!("peak heap {} bytes while streaming, bound {} (8 x chunk + 8 x longest line + 64 KiB)", peak, bound));
@@ -186,14 +195,14 @@ pub fn suite(_prop: &str, tier: &str, _seed: u64) -> Report {
             }
         }
     }
-    rep.bound = format!("mem: {} generated streams (cnf clauses, cnf header + comment trailer, alternating comments, blocks of consecutive comments, wcnf, gcnf, btor2 nodes, btor2 comments) of {:?} bytes x 3 chunk/read-size combinations; peak heap (counting allocator) against 8 x chunk + 8 x 128 + 64 KiB", STREAMS.len(), totals);
+    rep.bound = format!("mem: {} generated streams (cnf clauses, cnf header + comment trailer, alternating comments, blocks of consecutive comments, wcnf, gcnf, btor2 nodes, btor2 comments, btor2 all kinds of lines, btor2 ending in a justice line with a huge declared count) of {:?} bytes x 3 chunk/read-size combinations; peak heap (counting allocator) against 8 x chunk + 8 x 128 + 64 KiB", STREAMS.len(), totals);
     rep
 }
 pub fn replay(_prop: &str, args: &[String]) -> i32 {
     let v: Vec<usize> = args.iter().map(|x| x.parse().unwrap()).collect();
     let (r, peak, bound) = one(v[0], v[1], v[2], v[3]);
     println!("{} stream ({}): result {:?}, peak heap {} bytes, bound {}", STREAMS[v[0]].0, STREAMS[v[0]].1, r, peak, bound);
-    if peak > bound || r.is_err() {
+    if peak > bound || r.is_ok() == STREAMS[v[0]].1.starts_with("REJECTED") {
         println!("FAILS C10 streaming memory is bounded by chunk size and largest item");
         1
     } else {
